@@ -16,6 +16,10 @@ def fold(e):
         return fold(e.a[0])
     if e.k == "field" and e.x["name"] == "0" and e.a[0].k == "bin":
         return fold(e.a[0])
+    if e.k == "field":
+        s = e.strip()      # `Ok(7)?`, `Some(7).unwrap()`, `(a, b).1`: the payload when its construction is visible
+        if s is not e:
+            return fold(s)
     if e.k == "bin":
         a, b = fold(e.a[0]), fold(e.a[1])
         if a is None or b is None:
